@@ -113,18 +113,24 @@ def sortNat (l : List Nat) : List Nat := l.mergeSort (· ≤ ·)
 def jNats (l : List Nat) : Json := Json.arr (l.map toJson).toArray
 def jStr (cs : List Char) : Json := toJson (String.ofList cs)
 
+/-- `compiled.as_ref().map(|r| r.as_str())`: the string the cached value was built from. -/
+def jCompiled (rx : LazyRegex) : Json :=
+  match rx.compiled with
+  | some c => jStr c.src.toStr
+  | none => Json.null
+
 /-- Same shape as `regex_radix_tree::verif::snapshot_item`. -/
 partial def snap : T → Json
   | .empty ic => Json.mkObj [("kind", "empty"), ("ignore_case", toJson ic)]
   | .node rx cs => Json.mkObj [
       ("kind", "node"), ("prefix", jStr rx.original),
       ("regex", jStr rx.regex.toStr),
-      ("ignore_case", toJson rx.ic), ("compiled", toJson rx.isCompiled),
+      ("ignore_case", toJson rx.ic), ("compiled", toJson rx.isCompiled), ("compiled_regex", jCompiled rx),
       ("children", Json.arr (cs.map snap).toArray)]
   | .leaf rx vs => Json.mkObj [
       ("kind", "leaf"), ("pattern", jStr rx.original),
       ("regex", jStr rx.regex.toStr),
-      ("ignore_case", toJson rx.ic), ("compiled", toJson rx.isCompiled),
+      ("ignore_case", toJson rx.ic), ("compiled", toJson rx.isCompiled), ("compiled_regex", jCompiled rx),
       ("ids", Json.arr ((vs.map (·.1)).mergeSort (fun a b => decide (a ≤ b)) |>.map toJson).toArray)]
 
 def dedup (l : List (List Char)) : List (List Char) :=
@@ -204,6 +210,21 @@ structure Parsed where
   valuesOk : Bool      -- every (pattern, id) of the snapshot is a live entry
   stringsOk : Bool     -- the `regex` strings are the ones `LazyRegex::new_leaf/new_node` build
 
+/-- The source a NODE's regex string stands for (injective; a string that is neither `.*` nor `^…` becomes a leaf source, which no
+node may carry). -/
+def nodeSrcOf (rstr : List Char) : RxSrc :=
+  if rstr == ".*".toList then .any else
+    match rstr with
+    | '^' :: rest => .node rest
+    | other => .leaf other
+
+/-- The source a LEAF's regex string stands for (injective; anything that is not `^…$` becomes a node source, which no leaf may
+carry; a string without `^` is marked with U+FFFF). -/
+def leafSrcOf (rstr : List Char) : RxSrc :=
+  match rstr with
+  | '^' :: rest => if rest.getLast? == some '$' then .leaf rest.dropLast else .node rest
+  | other => .node (Char.ofNat 0xFFFF :: other)
+
 def lookupVal (L : List (Entry String Nat)) (p : List Char) (id : String) : Option Nat :=
   (L.find? fun e => e.pat == p && e.id == id).map (·.val)
 
@@ -218,22 +239,23 @@ partial def parseSnap (L : List (Entry String Nat)) (j : Json) : Except String P
     let cs ← (← Drv.arr? j "children").toList.mapM (parseSnap L)
     -- the `regex` STRING of the real LazyRegex decides which source the model regex gets; a string that is neither
     -- `^prefix` nor `.*` is kept as a (wrong) leaf source so that `Item.inv` fails on it
-    let src : RxSrc := if rstr == ".*".toList then .any else
-      match rstr with
-      | '^' :: rest => .node rest
-      | other => .leaf other
+    let src := nodeSrcOf rstr
     let okStr := rstr == (if q.isEmpty then ".*".toList else '^' :: q)
-    -- the hook shows only whether a value is cached, not what it was built from: assumed consistent
-    let rx : LazyRegex := ⟨q, src, ic, if compiled then some ⟨src, ic⟩ else none⟩
+    -- the cached value is rebuilt from the string the REAL cached `Regex` reports (`compiled_regex` = `Regex::as_str()`), decoded
+    -- like the `regex` field, so `Item.inv`'s "stored = create_regex(fields)" is evaluated on what the real tree cached; its case
+    -- flag is not visible through `as_str` (assumed = `ignore_case`; probed behaviourally by the harness)
+    let cstr ← Drv.optStr? j "compiled_regex"
+    if compiled != cstr.isSome then throw "snapshot: compiled flag and compiled_regex disagree"
+    let rx : LazyRegex := ⟨q, src, ic, cstr.map fun c => ⟨nodeSrcOf c.toList, ic⟩⟩
     return ⟨.node rx (cs.map (·.tree)), cs.all (·.valuesOk), okStr && cs.all (·.stringsOk)⟩
   else if kind == "leaf" then
     let p := (← Drv.str? j "pattern").toList
     let ids ← (← Drv.arr? j "ids").toList.mapM (fun x => (fromJson? x : Except String String))
     let vs := ids.map fun id => (id, lookupVal L p id)
-    let src : RxSrc := match rstr with
-      | '^' :: rest => if rest.getLast? == some '$' then .leaf rest.dropLast else .node rest
-      | other => .node other
-    let rx : LazyRegex := ⟨p, src, ic, if compiled then some ⟨src, ic⟩ else none⟩
+    let src := leafSrcOf rstr
+    let cstr ← Drv.optStr? j "compiled_regex"
+    if compiled != cstr.isSome then throw "snapshot: compiled flag and compiled_regex disagree"
+    let rx : LazyRegex := ⟨p, src, ic, cstr.map fun c => ⟨leafSrcOf c.toList, ic⟩⟩
     return ⟨.leaf rx (vs.map fun (id, v) => (id, v.getD 0)), vs.all (·.2.isSome),
       rstr == '^' :: (p ++ ['$'])⟩
   else throw "snapshot kind"
@@ -302,6 +324,12 @@ def handlePrim (j : Json) : Except String Json := do
     let start ← optStr j "start"
     let stop ← optStr j "end"
     let atS ← Drv.str? j "at"
+    -- chrono's lenient forms are outside the model's scope (Model/TimeWindow.lean "Scope of the text parsers")
+    let inScope := fun (t : Option String) => match t with
+      | none => true
+      | some t => if kind == "dt" then Rio.TimeWindow.dateTimeTextInScope t else Rio.TimeWindow.timeTextInScope t
+    if !(inScope start && inScope stop && Rio.TimeWindow.dateTimeTextInScope atS) then
+      return Json.mkObj [("tags", Json.arr #["prim:out-of-scope"])]
     let w := if kind == "dt" then Rio.TimeWindow.dateTimeFromRange start stop
              else Rio.TimeWindow.timeFromRange start stop
     let t := Rio.TimeWindow.parseDateTime atS
